@@ -129,17 +129,24 @@ DeleteCollOutcome(st, rq) ==
                       store |-> Drop(st.store, c),
                       props |-> Drop(st.props, c)])
 
-\* PROPPATCH of one property: set (rq.set = TRUE, value rq.v) or remove.
+\* PROPPATCH: a sequence of instructions  [p, set, v]  (set the property p to v / remove
+\* it), processed in document order (RFC 4918 9.2): a later instruction on the same property
+\* wins, instructions on different properties do not disturb each other.
 \* The server may refuse any individual property (propstat 403/404/409) - which
 \* properties a collection kind supports is its business (PropOK documents the
 \* usual table and is used by the model checker to generate refusals); what
-\* C15 demands is about the case where it *reports success*.
+\* C15 demands is about the instructions it *reports as performed*: rq.ins lists those.
+RECURSIVE ApplyInstr(_, _)
+ApplyInstr(props, ins) ==
+    IF ins = <<>> THEN props
+    ELSE LET h == Head(ins) IN
+         ApplyInstr(IF h.set THEN Upd(props, h.p, h.v) ELSE Drop(props, h.p), Tail(ins))
+
 ProppatchOutcome(st, rq) ==
-    LET c == rq.c  p == rq.p IN
+    LET c == rq.c IN
     IF ~Exists(st, c)
       THEN MustFail(st, "nocoll", {"notfound", "refused"})
-    ELSE MustSucceed([st EXCEPT !.props[c] =
-                        IF rq.set THEN Upd(@, p, rq.v) ELSE Drop(@, p)])
+    ELSE MustSucceed([st EXCEPT !.props[c] = ApplyInstr(@, rq.ins)])
 
 (***************************************************************************)
 (* Read operators (what a correct server answers in state st).              *)
